@@ -242,7 +242,7 @@ pub fn c04(r: &mut Rng, t: u32, n: usize) -> Vec<Value> {
     let mut v = vec![];
     while v.len() < n {
         maybe_set(r, t, &mut v, 4);
-        match r.below(15) {
+        match r.below(16) {
             0 | 1 | 2 => {
                 let nn = r.below(19) as u32;
                 if let Some((x, p, y, q)) = div_case(r, nn) {
@@ -263,6 +263,16 @@ pub fn c04(r: &mut Rng, t: u32, n: usize) -> Vec<Value> {
                 let xc = base + match r.below(3) { 0 => 0, 1 => 1, _ => yc - 1 };
                 let (xc, yc) = sign2(r, xc, yc);
                 v.push(bin(t, "div_rounded", dj(xc, p as u8), "dec", dj(yc, q as u8), "dec", nn as i64, r.below(4)));
+            }
+            14 => {
+                // divisor-scaled branch with a unit (or tiny) divisor coefficient and a dividend coefficient near the i128 bound
+                let nn = r.below(8) as u32;
+                let q = r.below(8) as u32;
+                let p = (nn + q + 1 + r.below(4) as u32).min(18);
+                if p <= nn + q { continue; }
+                let yc = *r.pick(&[1i128, -1, 1, 2, -2, 3, 10]);
+                let xc = neg1!(r, MAXC - r.below(1u64 << 40) as i128 * if r.bool() { 1 } else { 1 << 80 });
+                v.push(bin(t, if r.below(4) == 0 { "quantize" } else { "div_rounded" }, dj(xc, p as u8), "dec", dj(yc, q as u8), "dec", nn as i64, r.below(4)));
             }
             13 => {
                 if let Some((a, k, mm)) = knuth_shifted(r) {
